@@ -7,6 +7,7 @@
      {"ev":"file","id":N,"serial":S,"lines":[..abstract lines..],"backends":[..],"comperr":{..},"keep":B}
      {"ev":"q","q":{name,type,class,rip,edns,ecs,maxans,exact,cmp},"qid":K,"r":{backend: response}}
      {"ev":"loc","q":{kind,name,c},"r":{backend: [err,found,loc,mask,map,nil]}}
+     {"ev":"rp","nets":[{f,b,len,loc}],"points":[{b,ml,null,loc}],"clients":[{f,b,len}]}   range-point table of the real Rearranger
    Verdicts are printed as <<"REJECT", line, backend, clause>>; clause names the property and the broken clause. *)
 EXTENDS Resolve, Json
 
@@ -48,6 +49,34 @@ JudgeLoc(q, o) ==
                ELSE "ok"
 
 Report(b, v) == IF v = "ok" THEN TRUE ELSE PrintT(<<"REJECT", l, b, v>>)
+
+\* ---- C03, first observation point: the range-point table the real Rearranger derives from the subnets of one map,
+\* read the way the RocksDB driver reads it - the greatest key (address, mask byte) that is <= (client address,
+\* client prefix length), mask byte 0 for a point without location - must give longest-prefix match for every client.
+\* point == [b: 16 bytes, ml: mask length, null: BOOLEAN, loc]
+RECURSIVE BytesLeq(_, _, _)
+BytesLeq(a, b, i) == IF i > 16 THEN TRUE ELSE IF a[i] < b[i] THEN TRUE ELSE IF a[i] > b[i] THEN FALSE ELSE BytesLeq(a, b, i + 1)
+PKey(p) == [b |-> p.b, m |-> IF p.null THEN 0 ELSE p.ml]
+KeyLeq(k1, k2) == IF k1.b = k2.b THEN k1.m <= k2.m ELSE BytesLeq(k1.b, k2.b, 1)
+TableLookup(pts, c) ==
+  LET ck == [b |-> c.b, m |-> c.len]
+      below == {i \in 1..Len(pts) : KeyLeq(PKey(pts[i]), ck)}
+  IN IF below = {} THEN [found |-> FALSE, loc |-> 0, ml |-> 0, dup |-> FALSE]
+     ELSE LET i == CHOOSE i \in below : \A j \in below : KeyLeq(PKey(pts[j]), PKey(pts[i]))
+              dup == \E j \in 1..Len(pts) : j # i /\ PKey(pts[j]) = PKey(pts[i])
+          IN [found |-> ~pts[i].null, loc |-> pts[i].loc, ml |-> pts[i].ml, dup |-> dup]
+JudgeTable(nets, pts, c) ==
+  LET r == TableLookup(pts, c)
+      k == LpmLen(nets, c)
+  IN IF r.dup THEN "C03:table-two-points-under-one-key"
+     ELSE IF k < 0 THEN (IF r.found THEN "C03:table-location-without-subnet" ELSE "ok")
+     ELSE IF ~r.found THEN "C03:table-subnet-missed"
+     ELSE IF r.loc \notin LpmLocs(nets, c) THEN "C03:table-not-longest-prefix"
+     ELSE IF r.ml # k THEN "C03:table-mask"
+     ELSE "ok"
+CheckTable(e) ==
+  LET nets == {[f |-> n.f, b |-> n.b, len |-> n.len, loc |-> n.loc, map |-> 0] : n \in SetOf(e.nets)} IN
+  \A i \in 1..Len(e.clients) : Report("rearranger", JudgeTable(nets, e.points, e.clients[i]))
 
 \* a response the specification rejects for the client's location but would accept had the server answered from a
 \* wrong set of records (tagged only / untagged only / all locations / another location) breaks C04's first sentence
@@ -145,6 +174,9 @@ Next ==
               /\ UNCHANGED <<lines, recs, serial, cmpclause>>
          [] e.ev = "freq" ->
               /\ CheckFreq(e)
+              /\ UNCHANGED <<lines, recs, serial, memo, cmpclause>>
+         [] e.ev = "rp" ->
+              /\ CheckTable(e)
               /\ UNCHANGED <<lines, recs, serial, memo, cmpclause>>
          [] e.ev = "loc" ->
               /\ CheckLoc(e)
